@@ -100,6 +100,9 @@
 // Teaching agent (Claude-powered onboarding)
 pub mod agent;
 
+#[cfg(feature = "verif-hooks")]
+pub mod verif_hooks; // Verification-only scheduling points (feature-gated, off by default)
+
 // AST and IR modules (consolidated from crates/)
 pub mod ast;
 pub mod derived_relations; // Derived relation materialization
